@@ -9,7 +9,7 @@ func init() {
 		Harnesses: func(thorough bool) []harnessCfg {
 			o := sym.Options{}
 			hs := []harnessCfg{
-				{Dir: "netutil", Func: "VerifC14HostPort", Opts: o},
+				{Dir: "netutil", Func: "VerifC14HostPort", Opts: sym.Options{RealAddrString: true}},
 				{Dir: "netutil", Func: "VerifC14Prefix", Opts: o},
 				{Dir: "netutil", Func: "VerifC14PrefixShapes", Opts: o},
 				{Dir: "netutil/urlutil", Func: "VerifC14URLText", Opts: o},
@@ -25,12 +25,12 @@ func init() {
 				h, p, u = "6", "8", "4"
 			}
 			return map[string]string{
-				"HostPort": "host: every byte string of length 0.." + h + " without '[' and ']'; port: base in {0,10,90,100,990,1000,9990,10000,65530} plus an arbitrary last digit (every digit count and boundary)",
-				"Prefix":   "every byte string of length 0.." + p,
+				"HostPort":      "host: every byte string of length 0.." + h + " without '[' and ']'; port: base in {0,10,90,100,990,1000,9990,10000,65530} plus an arbitrary last digit (every digit count and boundary)",
+				"Prefix":        "every byte string of length 0.." + p,
 				"Prefix shapes": "lead from {'', '::', '::ffff:', '::FFFF:', '1::', '0:0:0:0:0:ffff:', '64:ff9b::'} + dotted quad of arbitrary digits / 'h:h' / 'h' (arbitrary digits; thorough: hex digits) + optional '/' and 0..3 arbitrary bytes",
-				"Duration": "d = +/-(h*Hour + m*Minute + s*Second + f) with one component an arbitrary byte (h 0..255, m 0..59, s 0..59, f 0..255 ns) and the others from {0,1,100} h, {0,1,59} m, {0,1,59} s, {0,1,5e8} ns; String() against the statement's definition for all of them, the text round trip for f == 0; plus 11 concrete edge values (0, +-1, min, max, fractions)",
-				"URL JSON": "every ASCII string of length 0..2 (thorough 0..3) as raw URL: json.Marshal -> json.Unmarshal, bridged by the executor to URL.MarshalText + the real encoding/json appendString (escapeHTML on) and to the real unquoteBytes validity check + URL.UnmarshalJSON; String() must survive",
-				"URL text": "every byte string of length 0.." + u + " as raw URL, through the real net/url Parse and String",
+				"Duration":      "d = +/-(h*Hour + m*Minute + s*Second + f) with one component an arbitrary byte (h 0..255, m 0..59, s 0..59, f 0..255 ns) and the others from {0,1,100} h, {0,1,59} m, {0,1,59} s, {0,1,5e8} ns; String() against the statement's definition for all of them, the text round trip for f == 0; plus 11 concrete edge values (0, +-1, min, max, fractions)",
+				"URL JSON":      "every ASCII string of length 0..2 (thorough 0..3) as raw URL: json.Marshal -> json.Unmarshal, bridged by the executor to URL.MarshalText + the real encoding/json appendString (escapeHTML on) and to the real unquoteBytes validity check + URL.UnmarshalJSON; String() must survive",
+				"URL text":      "every byte string of length 0.." + u + " as raw URL, through the real net/url Parse and String",
 			}
 		},
 		Outside: []string{"timeutil.Duration values outside the family above (a fully symbolic int64 needs 64-bit division by 10^9, which no available solver decides in time; the family keeps every term a function of one input byte, decided by the executor's value tables)", "the Duration text round trip with a symbolic value and a fractional part (floating point in time.ParseDuration)", "JSON beyond string tokens and non-ASCII text through JSON (encoding/json's reflection-driven paths are not executed; invalid UTF-8 is replaced by U+FFFD by encoding/json itself)",
